@@ -296,9 +296,22 @@ class Enumerator:
         fn = self.px.method(inst["__class__"], mname)
         from ..core import is_noop_stmt
         body = [s for s in fn.body if not is_noop_stmt(s)]
-        if len(body) != 1 or not isinstance(body[0], ast.Return):
-            raise AnalysisError(f"C02: predicate {inst['__class__']}.{mname} is not a single return expression")
-        return self.pexpr(inst, body[0].value)
+
+        def run(stmts):
+            for st in stmts:
+                if isinstance(st, ast.Return) and st.value is not None:
+                    return bool(st.value.value) if isinstance(st.value, ast.Constant) else self.pexpr(inst, st.value)
+                if isinstance(st, ast.If):
+                    r = run(st.body) if self.pexpr(inst, st.test) else run(st.orelse)
+                    if r is not None:
+                        return r
+                    continue
+                raise AnalysisError(f"C02: predicate {inst['__class__']}.{mname} is not made of returns and guards")
+            return None
+        r = run(body)
+        if r is None:
+            raise AnalysisError(f"C02: predicate {inst['__class__']}.{mname} can fall off its end")
+        return r
 
     def pexpr(self, inst, e):
         if isinstance(e, ast.BoolOp):
